@@ -117,7 +117,21 @@ def rand_config(rng, max_size=40):
         if kind < 0.4:
             t2['qtotal'] = list(t1['qtotal'])
             t2['missing'] = [b for b in t2['missing']]
-        return dict(mods=list(mods), tensors=[t1, t2])
+        # a third, small tensor (vector or thin matrix) contractible with a leg of T1: matvec-like products and
+        # outer products stay small
+        j = rng.randrange(r1)
+        legs3 = [conj_leg(legs1[j])]
+        labels3 = [(labels1[j] + ['*']) if labels1[j] else []]
+        if rng.random() < 0.5:
+            legs3.append(rand_leg(rng, mods, max_blocks=2, max_size=1))
+            labels3.append(['f'])
+        t3 = rand_tensor(rng, mods, legs3, labels3, rng.random() < 0.3)
+        t3['missing'] = []
+        if rng.random() < 0.35 and r1 >= 2:
+            # the partner is T1 with two legs already combined into a pipe (so split_legs is enabled at once)
+            g = rng.sample(range(r1), 2)
+            t2 = dict(combine_of=0, group=[x + 1 for x in g], qconj=rng.choice([1, -1]))
+        return dict(mods=list(mods), tensors=[t1, t2, t3])
     raise RuntimeError('no config')
 
 
@@ -134,6 +148,10 @@ def mc_module(name, cfg):
     lines = ['---- MODULE %s ----' % name, 'EXTENDS NpcProgram', 'MCMods == %s' % tlc.tla_lit(cfg['mods'])]
     tnames = []
     for ti, t in enumerate(cfg['tensors']):
+        if 'combine_of' in t:
+            lines.append('T%d == OpCombine(T%d, %s, %d, TRUE, TRUE)' % (ti + 1, t['combine_of'] + 1, tlc.tla_lit(t['group']), t['qconj']))
+            tnames.append('T%d' % (ti + 1))
+            continue
         lnames = []
         for li, leg in enumerate(t['legs']):
             ln = 'L%d_%d' % (ti + 1, li + 1)
@@ -153,7 +171,7 @@ def mc_module(name, cfg):
     return '\n'.join(lines) + '\n'
 
 
-def mc_cfg(max_ops, nslots=3, max_rank=4, max_size=64, max_abs=20000, invariants=True):
+def mc_cfg(max_ops, nslots=4, max_rank=4, max_size=100, max_abs=20000, invariants=True):
     return dict(spec='Spec',
                 constants=dict(Mods='<-MCMods', InitTensors='<-MCInit', NSlots=nslots, MaxOps=max_ops, MaxRank=max_rank,
                                MaxSize=max_size, MaxAbs=max_abs),
@@ -187,6 +205,29 @@ def build_leg(chinfo, leg):
     slices = np.concatenate([[0], np.cumsum(leg['sizes'])]).astype(np.intp) if leg['sizes'] else np.array([0], np.intp)
     charges = np.array(leg['charges'], dtype=np.int64).reshape(len(leg['sizes']), chinfo.qnumber)
     return ch.LegCharge.from_qind(chinfo, slices, charges, leg['qconj'])
+
+
+def storage_variant(a, variant):
+    """The same tensor in a different (valid) internal storage state, reached through public operations only:
+    variant 1: blocks stored in a non-lexsorted order (transpose there and back);
+    variant 2: additionally a stored block that is entirely zero (element assignment of 0. inserts a block)."""
+    if variant == 0 or a.rank < 2:
+        return a
+    perm = list(range(a.rank))[::-1]
+    b = a.transpose(perm).transpose(perm)
+    if variant == 2:
+        # find an allowed but not stored block and touch it
+        import itertools
+        stored = {tuple(r) for r in b._qdata.tolist()}
+        for qi in itertools.product(*[range(l.block_number) for l in b.legs]):
+            if qi in stored:
+                continue
+            q = b.chinfo.make_valid(sum(l.get_charge(i) for l, i in zip(b.legs, qi)))
+            if all(q == b.qtotal):
+                idx = tuple(int(l.slices[i]) for l, i in zip(b.legs, qi))
+                b[idx] = 0.
+                break
+    return b
 
 
 def build_array(chinfo, t, dtype=None):
@@ -408,6 +449,15 @@ def apply_step(pool, l, chinfo):
         idx = _index_tuple(l['spec'])
         part = a[idx]
         a[idx] = part * z
+        return 'inplace', a
+    if op == 'setitem_from':
+        b = pool[l['b']]
+        if b.dtype.kind == 'c' and a.dtype.kind != 'c':
+            a2 = a.astype(np.complex128)
+            pool[l['a']] = a2
+            a = a2
+        idx = _index_tuple(l['spec'])
+        a[idx] = b[idx]
         return 'inplace', a
     if op == 'iswapaxes':
         a.iswapaxes(l['x'] - 1, l['y'] - 1)
